@@ -30,7 +30,7 @@ Next ==
         \* plain predicates (short-circuit "holds \/ Emit") instead of branching on the disjunction
         /\ stk' = SubSeq(stk, 1, e.depth) \o << [s |-> n.s, g |-> n.g, o |-> n.o] >>
         /\ Judge(i', << <<"NoPanic", ~e.panic>> >> \o StateMonitors(n.g, e.obs, e.authority)
-                        \o StepMonitors(n.g0, e, n.o0, e.obs))
+                        \o StepMonitors(n.g0, e, n.o0, e.obs, e.cap_roles, e.cap_members))
         /\ Drift(i', e.ok = n.ok /\ e.err = n.err /\ e.obs = Obs(n.s, A, R), e.op)
 Spec == Init /\ [][Next]_vars
 Done == Emit("DONE", [events |-> TLCGet("stats").diameter - 1])
